@@ -1,8 +1,64 @@
 // ctl_storage.cpp — controlled-schedule scenarios for reusable_storage_mtsafe (C19): several threads create and
-// finish coroutines of various frame sizes on ONE shared storage; yield points are the busy_x / busy_g / busy_s hooks.
+// finish coroutines of various frame sizes on ONE shared storage; yield points are the busy_x / busy_g / busy_n / busy_s hooks
+// and every operation on the atomic _busy itself (a_x / a_st / a_ld / a_cas).
 // engines: st_mtc, st_mtr (same scenarios with the recycling allocator of storage_common.h).   ops: `2 k1 sz1 k2 sz2 ...` one line per thread (k >= 0: create a coroutine of class k whose frame
 // size is sz; k = -1: finish this thread's oldest live coroutine; k = -2: its newest), `9 c1 c2 ...` the schedule.
 #include "ctl.h"
+// Every operation on an atomic member of the storages is a scheduling point of its own, whatever hooks the source has:
+// std::atomic is replaced by the wrapper below while coro_storage.h (and only it) is compiled. Everything that header
+// includes is included first, so the replacement cannot reach any other code.
+#include <cocls/with_allocator.h>
+#include <cocls/function.h>
+#include <cocls/verif_hooks.h>
+#include <cassert>
+#include <vector>
+#include <utility>
+namespace std {
+template <typename T>
+struct vh_atomic {
+    std::atomic<T> v;
+    vh_atomic() noexcept = default;
+    constexpr vh_atomic(T x) noexcept : v(x) {}
+    vh_atomic(const vh_atomic &) = delete;
+    vh_atomic &operator=(const vh_atomic &) = delete;
+    T load(std::memory_order o = std::memory_order_seq_cst) const noexcept {
+        ctl::point("a_ld");
+        return v.load(o);
+    }
+    void store(T x, std::memory_order o = std::memory_order_seq_cst) noexcept {
+        ctl::point("a_st");
+        v.store(x, o);
+    }
+    T exchange(T x, std::memory_order o = std::memory_order_seq_cst) noexcept {
+        ctl::point("a_x");
+        return v.exchange(x, o);
+    }
+    bool compare_exchange_strong(T &e, T x, std::memory_order o = std::memory_order_seq_cst) noexcept {
+        ctl::point("a_cas");
+        return v.compare_exchange_strong(e, x, o);
+    }
+    bool compare_exchange_strong(T &e, T x, std::memory_order o, std::memory_order f) noexcept {
+        ctl::point("a_cas");
+        return v.compare_exchange_strong(e, x, o, f);
+    }
+    bool compare_exchange_weak(T &e, T x, std::memory_order o = std::memory_order_seq_cst) noexcept {
+        ctl::point("a_cas");
+        return v.compare_exchange_strong(e, x, o);
+    }
+    bool compare_exchange_weak(T &e, T x, std::memory_order o, std::memory_order f) noexcept {
+        ctl::point("a_cas");
+        return v.compare_exchange_strong(e, x, o, f);
+    }
+    operator T() const noexcept { return load(); }
+    T operator=(T x) noexcept {
+        store(x);
+        return x;
+    }
+};
+}  // namespace std
+#define atomic vh_atomic
+#include <cocls/coro_storage.h>
+#undef atomic
 #include "storage_common.h"
 
 using namespace cocls;
